@@ -214,4 +214,38 @@ PROPS = {
             native("c17_global_sinks", t=["secs=30", "lanes=3"], name="tsan", flavour="tsan", tiers=("thorough",)),
         ],
     },
+    "C20": {
+        "level": "exploration",
+        "assumptions": [
+            "every readout (tight reader loop, the MetricReporter task's sink, the final one) is replayed into the recording EntryWriter; the sum over all of them is the observable",
+            "gauges have one writer each with increasing values, so 'a readout reports a value that was set' is decidable per readout stream",
+            "the unit of a readout is required only when describe() returned before the readout began",
+        ],
+        "legs": [
+            native("c20_metrics_bridge", ["secs=10"], ["secs=120"]),
+            miri("c20_metrics_bridge", 8, 48, [0, 1], [0, 1, 2, 3]),
+            native("c20_metrics_bridge", t=["secs=40", "lanes=2"], name="tsan", flavour="tsan", tiers=("thorough",)),
+        ],
+    },
+    "C15": {
+        "level": "exploration",
+        "assumptions": [
+            "dynamic compositions re-box between layers (boxing is itself one of the wrappers under test); Arc/Cow/Box/Option of the plain entry are the base variations",
+            "flag families are never mixed in one case (merging an EMF flag with a foreign flag panics by design)",
+        ],
+        "legs": [
+            native("c15_wrappers", ["secs=8"], ["secs=100"]),
+        ],
+    },
+    "C07": {
+        "level": "translation_validation",
+        "assumptions": [
+            "the naming reference in checks/src/bin/c07_macro_programs.rs is the oracle; like the documentation it takes the Inflector crate's to_pascal_case/to_snake_case/to_kebab_case as the definition of inflection",
+            "generated programs avoid three shapes the pinned macro does not compile (ignored fields inside enum struct variants, two flatten prefixes with the same text in one container, by-value children inside subfield structs); a generated program that does not compile is INCONCLUSIVE, never a verdict on naming",
+            "identifiers come from a fixed word list; attribute strings are restricted to what the macro accepts (inflectable prefixes: alphanumerics, '_' and '-'; container prefixes end in a delimiter)",
+        ],
+        "legs": [
+            native("c07_macro_programs", ["programs=2", "roots=150"], ["programs=16", "roots=400"], timeout={"quick": 900, "thorough": 3000}),
+        ],
+    },
 }
